@@ -290,9 +290,74 @@ def run(ctx):
             ctx.ob('GUARDDOM', 'a card is copied only if the key is not already present', fi, ok,
                    {'path_condition': [pretty(c)[:120] for c in e.pc]}, node=e.node)
 
+    # the configuration step may assign a card it does not own only when the key is absent, or when the value present
+    # is (tested to be) the one inherited from the input recording -- never over a value the user supplied
+    pc_fi = ctx.func(B + '._header_populate_configuration')
+    rp, Ip = ctx.run(pc_fi, heap={'input_header_dict': sym('INHDR')})
+    PKT = {'PKTIDX', 'PKTSTART', 'PKTSTOP'}
+    n_free = 0
+    for e in Ip.events:
+        if not (e.kind == 'store' and e.data.get('target') == 'sub'):
+            continue
+        ka = e.data['key'].single_atom()
+        if ka is None or ka.kind != 'str' or ka.args[0] in OWNED or ka.args[0] in PKT:
+            continue
+        n_free += 1
+        key = ka.args[0]
+        absent = T.mk_not(T.mk_in(e.data['key'], e.data['base']))
+
+        def conj(c):
+            a = c.single_atom()
+            return list(a.args) if (a is not None and a.kind == 'and') else [c]
+        conds = [x for c in e.pc for x in conj(c)]
+        ok_absent = any(c.key == absent.key for c in conds)
+
+        def inherited_test(c):
+            """an equality between the card's present value and a term read from the input header"""
+            a = c.single_atom()
+            if a is None or a.kind != 'cmp' or a.args[0] != '==':
+                return False
+            sides = a.args[1:]
+            has_card = any(mentions(x, lambda y: y.kind == 'sub' and y.args[1].key == e.data['key'].key and
+                                    not mentions(y.args[0], lambda z: z.kind == 'sym' and z.args[0] == 'INHDR')) or
+                           any(z.kind == 'sub' and z.args[1].key == e.data['key'].key for z in x.atoms()) for x in sides)
+            has_input = any(mentions(x, lambda y: y.kind == 'sym' and y.args[0] == 'INHDR') for x in sides)
+            return has_card and has_input
+        ok_inherited = any(inherited_test(c) for c in conds) or any(
+            a.kind == 'cmp' and a.args[0] == '==' and inherited_test(Term.of(a)) for c in conds for a in T.all_atoms(c).values())
+        ctx.ob('GUARDDOM', f'configuration step: the non-owned card {key} is assigned only if absent or if its present value is the one '
+               'inherited from the input recording (user-supplied cards are preserved)', pc_fi, ok_absent or ok_inherited,
+               {'path_condition': [pretty(c)[:160] for c in e.pc]}, node=e.node, construct=e.text()[:80] + ' [guard]')
+    ctx.require(n_free >= 3, 'configuration step: stores of non-owned cards (TELESCOP/OBSERVER/SRC_NAME) not found (vacuity guard)')
+
     # =============================================================== D5 PKTIDX / END / padding order
     ctx.clause = 'D5'
     r, I = ctx.run(mk, no_inline=(RU + 'format_header_line',))
+    # every valid card value is formatted, the empty string included: the writer never reads a character of a value at a
+    # fixed position without knowing that the value is that long
+    vals = []
+    for e in I.events:
+        for t in ([e.data.get('value')] if isinstance(e.data.get('value'), Term) else []) + list(e.data.get('args', [])) + \
+                [v for _, v in e.data.get('kwargs', [])] + list(e.pc):
+            if not isinstance(t, Term):
+                continue
+            for a in T.all_atoms(t).values():
+                if a.kind == 'sub' and a.args[1].const() is not None and a.args[0].single_atom() is not None \
+                        and a.args[0].single_atom().kind == 'sub' and \
+                        mentions(a.args[0], lambda y: y.kind == 'sym' and y.args[0] == 'header_dict'):
+                    # (a subscript of a VALUE of the dictionary: header_dict[k][c] or, through items(), item[1][c];
+                    #  item[0] / item[1] themselves are the tuple components, not characters)
+                    vals.append((e, a))
+    seen_k = set()
+    for e, a in vals:
+        if a.key in seen_k:
+            continue
+        seen_k.add(a.key)
+        guarded = any(mentions(c, lambda y: y.kind == 'call' and y.args[0] == 'len' and y.args[1] and y.args[1][0].key == a.args[0].key)
+                      or c.key == a.args[0].key for c in e.pc)
+        ctx.ob('GUARDDOM', 'a character of a card value is read at a fixed position only after the value is known to be long enough '
+               '(empty and blank string cards are valid)', mk, guarded, {'read': pretty(Term.of(a))[:120]}, node=e.node,
+               construct=pretty(Term.of(a))[:60] + ' [fixed-position read]')
     adv = [e for e in I.events if e.kind == 'store' and e.data.get('target') == 'sub'
            and e.data['key'].key == lift('PKTIDX').key]
     if not adv:
